@@ -87,14 +87,14 @@ IsIPv4(h) == /\ Cardinality({i \in DOMAIN h : h[i] = 46}) = 3
                                           /\ (p[2] > p[1] => h[p[1]] # 48)
                                           /\ DecVal(h, p[1], p[2]) <= 255
 IsIPv6(h) == LET colons == {i \in DOMAIN h : h[i] = 58}
-                 dbl == {i \in colons : i + 1 \in colons}
-                 empty == {p \in Pieces(h, 58) : p[2] < p[1]} IN
+                 dbl == {i \in colons : i + 1 \in colons}                      \* where a "::" starts
+                 groups == {p \in Pieces(h, 58) : p[2] >= p[1]} IN
              /\ \A i \in DOMAIN h : IsHex(h[i]) \/ h[i] = 58
-             /\ Cardinality(colons) >= 2 /\ Cardinality(colons) <= 7
-             /\ \A p \in Pieces(h, 58) : p[2] - p[1] <= 3
-             /\ Cardinality(dbl) <= 1 + (IF h[1] = 58 /\ 2 \in colons /\ 3 \in colons THEN 1 ELSE 0)
-             /\ IF dbl = {} THEN Cardinality(colons) = 7 /\ empty = {}
-                ELSE \A i \in colons : (i = 1 \/ i = Len(h)) => (i \in dbl \/ i - 1 \in dbl)
+             /\ \A p \in groups : p[2] - p[1] <= 3
+             /\ Cardinality(dbl) <= 1
+             /\ (h[1] = 58 => 1 \in dbl) /\ (h[Len(h)] = 58 => Len(h) - 1 \in dbl)
+             /\ IF dbl = {} THEN Cardinality(colons) = 7 /\ Cardinality(groups) = 8
+                ELSE Cardinality(groups) <= 7
 HostnameInSNI(name) == LET host == DropZone(Unbracket(name)) IN
                        IF host # <<>> /\ (IsIPv4(host) \/ IsIPv6(host)) THEN <<>> ELSE StripDots(name)
 
@@ -171,7 +171,12 @@ ExtInsert(t, body) == /\ phase = "edit"
                       /\ UNCHANGED <<cls, status, applied, omitSNI, raw, rebuilt, wire, sent, hrrSeen, phase>>
 ExtRemove(t)       == Edit(CNoExt(t), FALSE) /\ UNCHANGED omitSNI
 \* the ServerName field of the SNIExtension object in UConn.Extensions assigned directly (found: the list has one)
-ExtSNIField(norm, found) == IF found THEN Edit(CSNI(norm), FALSE) /\ UNCHANGED omitSNI ELSE UNCHANGED bvars
+\* On a hello that is not protected the edit is not claimed, but it takes away what an earlier SetSNI claimed.
+ExtSNIField(norm, found) ==
+  IF ~found THEN UNCHANGED bvars
+  ELSE /\ phase = "edit"
+       /\ pending' = IF Protected THEN Add(pending, CSNI(norm)) ELSE {c \in pending : c.kind # "sni"}
+       /\ UNCHANGED <<cls, status, applied, omitSNI, raw, rebuilt, wire, sent, hrrSeen, phase>>
 \* the protocol list of the ALPN extension object replaced (found: the extension list has one)
 ExtALPN(body, found) == IF found THEN Edit(CExt(16, body), FALSE) /\ UNCHANGED omitSNI ELSE UNCHANGED bvars
 
